@@ -309,6 +309,16 @@ def c08_multiphase(case):
                 err = max(np.abs(r[0] - single[0]).max(), np.abs(r[1] - single[1]).max())
                 if err > 1e-7:
                     problems.append(f"{which}, phi = {phi}, assemblage {label}: differs from the single-phase run at mobility phi M* by {err:.2e}")
+    # one parameter dictionary edited in place between runs (fraction sweep)
+    shared = _params(number_of_grains=16, phase_assemblage=(P.olivine, P.enstatite), phase_fractions=(0.9, 0.1))
+    for phi in (0.9, 0.5, 0.2):
+        shared["phase_fractions"] = (phi, 1 - phi)
+        m = _mineral("olivine", "olivine_A", "matrix_dislocation", 16, seed=9)
+        m.update_orientations(shared, np.eye(3), lambda t, x: GENERAL_L, (0.0, 0.3, lambda t: np.zeros(3)))
+        ref_ = run((P.olivine,), (1.0,), "olivine", mob=125.0 * phi)
+        err = max(np.abs(m.orientations[-1] - ref_[0]).max(), np.abs(m.fractions[-1] - ref_[1]).max())
+        if err > 1e-7:
+            problems.append(f"parameter dictionary reused with phase fraction {phi}: result differs from the single-phase run by {err:.2e} (stale shared state)")
     ms1 = [_mineral("olivine", "olivine_A", n=12, seed=1), _mineral("enstatite", "enstatite_AB", n=12, seed=2)]
     ms2 = [_mineral("enstatite", "enstatite_AB", n=12, seed=2), _mineral("olivine", "olivine_A", n=12, seed=1)]
     params = _params(number_of_grains=12, phase_assemblage=(P.olivine, P.enstatite), phase_fractions=(0.6, 0.4))
@@ -510,6 +520,11 @@ def c15_resample(case):
             problems.append("default n_samples is not the grain count")
     finally:
         stats.np = old
+    for sd in (0, 1, 12345):
+        a = stats.resample_orientations(A, f, n_samples=50, seed=sd)
+        b = stats.resample_orientations(A, f, n_samples=50, seed=sd)
+        if not (np.array_equal(a[0], b[0]) and np.array_equal(a[1], b[1])):
+            problems.append(f"seed {sd}: two calls with the same seed give different samples")
     return {"reproduced": bool(problems), "detail": sorted(set(problems))[:5] or "draws follow the cumulative volume intervals"}
 
 
@@ -589,6 +604,21 @@ def c20_geometry(case):
     if not (np.allclose((X**2 + Y**2)[far], (1 - np.abs(u[:, 2]))[far], atol=1e-10) and np.allclose(X * u[:, 1], Y * u[:, 0], atol=1e-10)
             and np.all(X * u[:, 0] >= -1e-12) and np.allclose(X[~far], 0) and np.allclose(Y[~far], 0)):
         problems.append("lambert_equal_area: squared radius != 1 - |z| or azimuth changed")
+    cl = np.array([0.2, 0.1, 0.97]) + 0.05 * rng.normal(size=(12, 3))
+    cl /= np.linalg.norm(cl, axis=1)[:, None]
+    for kernel, fn_ in stats.SPHERICAL_COUNTING_KERNELS.items():
+        gs = 15
+        Xg, Yg, T = stats.point_density(cl[:, 0], cl[:, 1], cl[:, 2], gridsteps=gs, kernel=kernel)
+        rho, h = np.mgrid[-np.pi:np.pi:gs * 1j, -1:1:gs * 1j]
+        xc, yc, zc = geo.to_cartesian(np.pi / 2 - rho.ravel(), np.pi / 2 - np.arcsin(h).ravel())
+        tot = np.empty(len(xc))
+        for i, c in enumerate(np.column_stack([xc, yc, zc])):
+            dens, scale = fn_(np.abs(cl @ c), axial=True)
+            tot[i] = (dens.sum() - 0.5) / scale
+        want = tot / tot.mean()
+        want[want < 0] = 0
+        if not np.allclose(T.ravel(), want, rtol=1e-9, atol=1e-12):
+            problems.append(f"point_density[{kernel}]: not (raw estimate / grid mean) with negatives clipped afterwards (max diff {np.abs(T.ravel() - want).max():.2e})")
     data = u[:25]
     for kernel in stats.SPHERICAL_COUNTING_KERNELS:
         Xg, Yg, T = stats.point_density(data[:, 0], data[:, 1], data[:, 2], gridsteps=21, kernel=kernel)
@@ -723,3 +753,29 @@ def c19_config(case):
     finally:
         os.chdir(cwd)
     return {"reproduced": bool(problems), "detail": sorted(set(problems))[:6] or "configurations parse with documented defaults"}
+
+
+
+def c09_apply_gbs(case):
+    """pydrex.utils.apply_gbs on concrete inputs with exact ties, zeros, several grains below the threshold."""
+    from pydrex import utils
+
+    problems = []
+    rng = np.random.default_rng(21)
+    for chi, f in ((0.5, [0.125, 0.125, 0.25, 0.5]), (0.5, [0.05, 0.125, 0.325, 0.5]), (0.0, [0.0, 0.0, 0.5, 0.5]), (0.8, [0.1, 0.15, 0.25, 0.5]), (0.4, [0.25] * 4)):
+        f = np.array(f)
+        n = len(f)
+        cur, prev = rng.normal(size=(n, 3, 3)), rng.normal(size=(n, 3, 3))
+        o, g = utils.apply_gbs(cur.copy(), f.copy(), chi, prev.copy(), n)
+        thr = chi / n
+        mask = f < thr
+        want_o = np.where(mask[:, None, None], prev, cur)
+        floored = np.where(mask, thr, f)
+        want_f = floored / floored.sum()
+        if not np.array_equal(o, want_o):
+            problems.append(f"chi={chi}, f={f.tolist()}: wrong grains frozen (ties at the threshold / zero volumes must keep their own orientation)")
+        if not np.allclose(g, want_f, rtol=0, atol=1e-15):
+            problems.append(f"chi={chi}, f={f.tolist()}: volumes {g.tolist()} != floor-then-renormalise {want_f.tolist()}")
+        if abs(g.sum() - 1) > 1e-12 or g.min() < chi / (n * (1 + chi)) - 1e-15 or np.any(np.diff(g[np.argsort(f, kind='stable')]) < -1e-15):
+            problems.append(f"chi={chi}, f={f.tolist()}: sum / lower bound / ordering violated")
+    return {"reproduced": bool(problems), "detail": problems[:5] or "apply_gbs floors and freezes exactly the grains below chi/n"}
